@@ -19,10 +19,17 @@ Proved here (all for arbitrary nesting, arbitrary `Mem`, no size bound):
 * `temps_disjoint`      a temporary / loop register is always taken from the inactive set: it differs
                         from every register that is active (live in an enclosing operation) and stays
                         reserved until it is released
+* `temps_disjoint_code`  the same on the EMITTED commands: no command writes a register active at the start of
+                        its operation except `RegFuture.add` on its own handle
+* `balanced_epr`, `epr_forms_completed`, `epr_sequence_compiles`
+                        EPR operations, abstracted to the register events recorded from the real builder
+                        for every API form (Gen/EprRegs.lean): each form is balanced (kernel-decided) and
+                        `balanced` / `sequence_compiles` cover programs containing them
 * `f17_*`               regression witnesses of F17 on the fixed model (17 `if_ez`, 20 `loop_until`)
 -/
 import NetqasmVerif.Lemmas.Sdk
 import NetqasmVerif.Lemmas.SdkWrites
+import NetqasmVerif.Props.EprRegsObligations
 namespace NQ.C14
 open NQ.Sdk
 
@@ -125,6 +132,18 @@ def fdepth : Host → Nat
   | .tryUntil _ body => fdepth body
   | _ => 0
 
+/-- most registers held at once by an EPR operation inside `op` -/
+def epeak : Host → Nat
+  | .seq a b => max (epeak a) (epeak b)
+  | .ifc _ _ _ _ body => epeak body
+  | .loop _ _ _ _ body => epeak body
+  | .loopBody _ _ _ _ body => epeak body
+  | .foreach _ _ body => epeak body
+  | .loopUntil _ body _ _ cl => max (epeak body) (epeak cl)
+  | .tryUntil _ body => epeak body
+  | .epr evs => peakEvs 0 evs
+  | _ => 0
+
 theorem tmp_le_one (v : Val) : v.tmp ≤ 1 := by cases v <;> simp [Val.tmp]
 theorem addNeed_le (v : Val) : v.addNeed ≤ Val.fdepth v + 1 := by
   cases v <;> simp [Val.addNeed, Val.fdepth]
@@ -132,33 +151,35 @@ theorem addNeed_le (v : Val) : v.addNeed ≤ Val.fdepth v + 1 := by
 /-- **depth_bound.** Inside an operation of nesting depth `k` at most `1·k + (2 + fdepth)` registers
 are taken on top of those active at its start: c = 1 per open loop-like operation, c' = 2
 temporaries (two condition operands / the two operands of `add`) plus one per level of
-future-indexed futures. -/
-theorem depth_bound (op : Host) (hc : Completed op) : need op ≤ depth op + (2 + fdepth op) := by
+future-indexed futures, plus — when EPR operations occur — the most registers such an operation holds
+at once (`epeak`, from the recorded register events). -/
+theorem depth_bound (op : Host) (hc : Completed op) : need op ≤ depth op + (2 + fdepth op) + epeak op := by
   induction op with
   | skip => simp [need]
   | seq a b iha ihb =>
     have := iha hc.1; have := ihb hc.2
-    simp only [need, depth, fdepth]; omega
+    simp only [need, depth, fdepth, epeak]; omega
   | newArray => simp [need]
   | newReg => exact hc.elim
-  | qop g t => cases t <;> simp [need, MTgt.need, fdepth, depth]
+  | qop g t => cases t <;> simp [need, MTgt.need, fdepth, depth, epeak] <;> omega
   | addF f o md =>
     have := addNeed_le o
-    simp only [need, depth, fdepth]; omega
+    simp only [need, depth, fdepth, epeak]; omega
   | addR h o md =>
     have := addNeed_le o
-    simp only [need, depth, fdepth]; omega
+    simp only [need, depth, fdepth, epeak]; omega
   | ifc cb c a b body ih =>
     have := ih hc; have := tmp_le_one a; have := tmp_le_one b
-    simp only [need, depth, fdepth]
+    simp only [need, depth, fdepth, epeak]
     split <;> omega
-  | loop rg s e d body ih => have := ih hc; simp only [need, depth, fdepth]; omega
-  | loopBody rg s e d body ih => have := ih hc; simp only [need, depth, fdepth]; omega
-  | foreach a w body ih => have := ih hc; simp only [need, depth, fdepth]; omega
+  | loop rg s e d body ih => have := ih hc; simp only [need, depth, fdepth, epeak]; omega
+  | loopBody rg s e d body ih => have := ih hc; simp only [need, depth, fdepth, epeak]; omega
+  | foreach a w body ih => have := ih hc; simp only [need, depth, fdepth, epeak]; omega
   | loopUntil n body ef ev cl ihb ihc =>
     have := ihb hc.1; have := ihc hc.2; have := tmp_le_one ef
-    simp only [need, depth, fdepth]; omega
-  | tryUntil n body ih => have := ih hc; simp only [need, depth, fdepth]; omega
+    simp only [need, depth, fdepth, epeak]; omega
+  | tryUntil n body ih => have := ih hc; simp only [need, depth, fdepth, epeak]; omega
+  | epr evs => simp [need, epeak]
 
 /-- **long_run_compiles** — the property in closed form: starting from a memory manager with `f`
 free registers, every program made of completed operations of nesting depth `k` and future-index
@@ -166,7 +187,7 @@ depth `d` with `k + 2 + d ≤ f`, of any length and with flushes anywhere, never
 registers. (`Sdk.run` starts from the fresh manager: 16 free.) -/
 theorem long_run_compiles (p : List Top) (m : Mem) (pend : List PCmd) (step : Nat) (acc : RunOut)
     (hfree : 0 < free m.active)
-    (hops : ∀ op, Top.op op ∈ p → Completed op ∧ depth op + (2 + fdepth op) ≤ free m.active)
+    (hops : ∀ op, Top.op op ∈ p → Completed op ∧ depth op + (2 + fdepth op) + epeak op ≤ free m.active)
     (hacc : ∀ st, acc.err ≠ some (st, .noRegister)) :
     ∀ st, (runProg m pend step acc p).err ≠ some (st, .noRegister) := by
   refine sequence_compiles p m pend step acc hfree ?_ hacc
@@ -293,5 +314,47 @@ theorem explicit_register_in_use_rejected :
     isRegState (emit Mem.init (.loop none 0 2 1 (.loop (some 0) 0 3 1 (.qop [] .newFut)))) = true ∧
     isOk (emit Mem.init (.loop none 0 2 1 (.loop (some 1) 0 3 1 (.qop [] .newFut)))) = true := by
   decide +kernel
+
+/-! ### EPR operations -/
+
+/-- **balanced_epr.** An EPR operation — abstracted to the register events recorded from the real
+builder (`take` = lowest free register, `rel p` = release of the p-th held register) — whose events
+give back everything they take (`heldLen 0 evs = some 0`) leaves the active registers as they were,
+from EVERY memory-manager state. (It is the `epr` case of `balanced`; the generated table
+`Gen.eprForms` is shown balanced form by form in `Props/EprRegsObligations`.) -/
+theorem balanced_epr (evs : List EprEv) (m m' : Mem) (cs : List PCmd) (hb : heldLen 0 evs = some 0)
+    (h : emit m (.epr evs) = .ok (m', cs)) : m'.active = m.active :=
+  balanced (.epr evs) m m' cs hb h
+
+/-- the seeded shape C14_4 (two registers taken, never released) is not balanced and exhausts the pool -/
+theorem epr_leak_witness :
+    heldLen 0 [EprEv.take, .take, .take, .rel 0] = some 2 ∧
+    isNoReg (emitEprH Mem.init [] ((List.replicate 8 [EprEv.take, .take, .take, .rel 0]).flatten ++ [.take])) = true := by
+  decide +kernel
+
+/-- every EPR API form of the generated table (create/recv × keep plain / post routine / sequential /
+with_info / rsp / measure / context block × expect_phi_plus × min_fidelity_all_at_end × number 1..3 ×
+generic / NV / NV-compiler) is a completed operation that needs at most 10 registers -/
+theorem epr_forms_completed : ∀ f ∈ Gen.eprForms, Completed (Host.epr f.2) ∧ need (Host.epr f.2) ≤ 10 := by
+  intro f hf
+  have h1 := List.all_eq_true.mp EprRegs.eprForms_balanced f hf
+  have h2 := List.all_eq_true.mp EprRegs.eprForms_peak f hf
+  exact ⟨by simpa [Completed] using h1, by simpa [need] using h2⟩
+
+/-- **EPR operations in `sequence_compiles`.** Any program — any length, flushes anywhere — whose
+operations are EPR operations of the table or other completed operations needing at most the free
+registers never runs out of registers, provided 10 registers are free. -/
+theorem epr_sequence_compiles (p : List Top) (m : Mem) (pend : List PCmd) (step : Nat) (acc : RunOut)
+    (hfree : 10 ≤ free m.active)
+    (hops : ∀ op, Top.op op ∈ p →
+      (∃ f ∈ Gen.eprForms, op = Host.epr f.2) ∨ (Completed op ∧ need op ≤ free m.active))
+    (hacc : ∀ st, acc.err ≠ some (st, .noRegister)) :
+    ∀ st, (runProg m pend step acc p).err ≠ some (st, .noRegister) := by
+  refine sequence_compiles p m pend step acc (by omega) ?_ hacc
+  intro op hmem
+  rcases hops op hmem with ⟨f, hf, rfl⟩ | ⟨hc, hn⟩
+  · have := epr_forms_completed f hf
+    exact ⟨this.1, fun m' hm' => compiles_of_need _ m' this.1 (by rw [hm']; omega)⟩
+  · exact ⟨hc, fun m' hm' => compiles_of_need _ m' hc (by rw [hm']; exact hn)⟩
 
 end NQ.C14
